@@ -448,21 +448,25 @@ Definition decode_event (lv k a b : N) : option (glabel unit unit) :=
   | Some e => Some (match lv with 0%N => GTop e | _ => GIn (N.to_nat lv - 1) e end)
   | None => None
   end.
-Fixpoint decode_bstr (s : bstr) : option (list (glabel unit unit)) :=
+(* every event comes with an annotation bit: for a start event, whether the implementation skipped exec
+   (the action was marked failed after looking at its dependencies) *)
+Fixpoint decode_bstr (s : bstr) : option (list (glabel unit unit * bool)) :=
   match s with
   | BNil => Some []
   | BCons l2 (BCons l1 (BCons l0 (BCons k (BCons a2 (BCons a1 (BCons a0 (BCons b2 (BCons b1 (BCons b0 r))))))))) =>
       match decode_event (dig3 l2 l1 l0) (dig k) (dig3 a2 a1 a0) (dig3 b2 b1 b0), decode_bstr r with
-      | Some e, Some rest => Some (e :: rest)
+      | Some e, Some rest => Some ((e, negb (N.eqb (dig3 b2 b1 b0) 0)) :: rest)
       | _, _ => None
       end
   | _ => None
   end.
-Fixpoint decode_trace (l : list bstr) : option (list (glabel unit unit)) :=
+Fixpoint decode_annot (l : list bstr) : option (list (glabel unit unit * bool)) :=
   match l with
   | [] => Some []
-  | c :: r => match decode_bstr c, decode_trace r with Some x, Some y => Some (x ++ y) | _, _ => None end
+  | c :: r => match decode_bstr c, decode_annot r with Some x, Some y => Some (x ++ y) | _, _ => None end
   end.
+Definition decode_trace (l : list bstr) : option (list (glabel unit unit)) :=
+  match decode_annot l with Some x => Some (map fst x) | None => None end.
 Definition gdag_of_ntables (top : list nrow) (inner : list (N * list nrow)) : gdag :=
   gdag_of_tables (map row_of_nrow top) (map (fun x => (N.to_nat (fst x), map row_of_nrow (snd x))) inner).
 
@@ -526,6 +530,43 @@ Definition valid_trace_fast (top : list row) (tabs : list (list row)) (assign : 
                  && forallb (fun p => match get (ginner s) p with Some si => negb (bad si) | None => true end) (inits tr)
      | None => false
      end.
+(* ---- ... and comparing, at every start event, the skip decision of the model (a failed flag among the action
+        and its dependencies) with the one the implementation took ---- *)
+Definition phase_skip (o : option thread) : option bool :=
+  match o with Some t => match hph t with HRun sk => Some sk | _ => None end | None => None end.
+Definition skip_of (s' : gstate Rp Ra) (l : glabel Rp Ra) : option bool :=
+  match l with
+  | GTop (EStart a) => phase_skip (get (th (gtop s')) a)
+  | GIn p (EStart a) => match get (ginner s') p with Some si => phase_skip (get (th si) a) | None => None end
+  | _ => None
+  end.
+(* result: the state reached, or the index of the first event that is not a step / whose skip bit differs *)
+Fixpoint grun_skip (strict : bool) (GG : gdag) (cap : nat) (s : gstate Rp Ra) (tr : list (glabel Rp Ra * bool)) (i : nat)
+  : gstate Rp Ra + (nat * bool) :=
+  match tr with
+  | [] => inl s
+  | (l, obs) :: r =>
+      match gstep_nowf strict GG cap s l with
+      | Some s' =>
+          match skip_of s' l with
+          | Some sk => if Bool.eqb sk obs then grun_skip strict GG cap s' r (S i) else inr (i, true)
+          | None => grun_skip strict GG cap s' r (S i)
+          end
+      | None => inr (i, false)
+      end
+  end.
+
+Definition valid_trace_skips (top : list row) (tabs : list (list row)) (assign : list (nat * nat)) (cap : nat)
+           (atr : list (glabel Rp Ra * bool)) : bool :=
+  let GG := gdag_of_shared top tabs assign in
+  let tr := map fst atr in
+  (1 <=? cap) && wf_dagb (gtopd GG) && forallb (fun t => wf_dagb (dag_of_table t)) tabs
+  && forallb (fun p => assoc_idx p assign (length tabs) <? length tabs) (inits tr)
+  && match grun_skip false GG cap (ginit GG cap) atr 0 with
+     | inl s => gfinal s && negb (bad (gtop s)) && negb (gover s)
+                && forallb (fun p => match get (ginner s) p with Some si => negb (bad si) | None => true end) (inits tr)
+     | inr _ => false
+     end.
 End Check.
 
 Definition gdag_of_nshared (top : list nrow) (tabs : list (list nrow)) (assign : list (N * N)) : gdag :=
@@ -534,3 +575,15 @@ Definition valid_trace_nfast (top : list nrow) (tabs : list (list nrow)) (assign
            (tr : list (glabel unit unit)) : bool :=
   valid_trace_fast unit unit (map row_of_nrow top) (map (map row_of_nrow) tabs)
                    (map (fun x => (N.to_nat (fst x), N.to_nat (snd x))) assign) cap tr.
+
+Definition nshared_args (top : list nrow) (tabs : list (list nrow)) (assign : list (N * N)) :=
+  (map row_of_nrow top, map (map row_of_nrow) tabs, map (fun x => (N.to_nat (fst x), N.to_nat (snd x))) assign).
+Definition valid_trace_nskips (top : list nrow) (tabs : list (list nrow)) (assign : list (N * N)) (cap : nat)
+           (atr : list (glabel unit unit * bool)) : bool :=
+  valid_trace_skips unit unit (map row_of_nrow top) (map (map row_of_nrow) tabs)
+                    (map (fun x => (N.to_nat (fst x), N.to_nat (snd x))) assign) cap atr.
+(* where a rejected trace leaves the model: index of the event, and whether it is a step whose skip bit differs *)
+Definition reject_point (top : list nrow) (tabs : list (list nrow)) (assign : list (N * N)) (cap : nat)
+           (atr : list (glabel unit unit * bool)) : option (nat * bool) :=
+  let GG := gdag_of_nshared top tabs assign in
+  match grun_skip unit unit false GG cap (ginit GG cap) atr 0 with inl _ => None | inr x => Some x end.
